@@ -183,8 +183,19 @@ pub fn cases(max_cmds: usize) -> impl Strategy<Value = Case> {
         }),
         6..24,
     );
+    // aliasing histories: breakpoints exactly 64 / 128 / 256 words apart (main code and a subroutine
+    // behind the data often are), one of them removed again, then the program resumed until it ends
+    let aliasing = (0u16..64, prop::sample::select(vec![64u16, 64, 128, 192, 256]), any::<bool>(), prop::collection::vec(raw_cmd(), 3..10)).prop_map(|(x, d, remove_first, mut tail)| {
+        let at = |kind: u8, b: u16| RawCmd { kind, a: 0xFFFF, b, c: 0, alias: 0 };
+        let mut v = vec![at(11, x), at(11, x + d), at(14, if remove_first { x } else { x + d })];
+        for r in &mut tail {
+            r.kind = [8u8, 8, 8, 0, 3, 6][r.kind as usize % 6];
+        }
+        v.extend(tail);
+        v
+    });
     let spec = crate::pick![5 => proggen::with_spin(proggen::prog_spec(24)).boxed(), 1 => proggen::raw_image_spec(super::c03::image_words()).boxed()];
-    (spec, crate::pick![3 => mixed, 2 => steppy, 1 => churn], input_bytes()).prop_map(|(spec, cmds, input)| Case { spec, cmds, input })
+    (spec, crate::pick![6 => mixed, 4 => steppy, 2 => churn, 1 => aliasing], input_bytes()).prop_map(|(spec, cmds, input)| Case { spec, cmds, input })
 }
 
 impl Prop for C10 {
@@ -192,7 +203,7 @@ impl Prop for C10 {
         "C10"
     }
     fn rule(&self) -> &'static str {
-        "Histories of 1-12 mixed commands (step-heavy histories of 4-39 commands, and breakpoint-churn histories of 6-23 commands over a handful of addresses) over {step, step into k (k absent, 0, 1, 2, 3, 7, 100, 65535, small), step out, continue, break add/remove at code addresses / labels / PC offsets} on ProgGen programs and (1 in 6) arbitrary word images written as `.fill` lines (loops, nested and recursive subroutines in both conventions, HALT in the middle or at the end, both feature settings), each command followed by `registers`, ended by `exit`. \
+        "Histories of 1-12 mixed commands (step-heavy histories of 4-39 commands, breakpoint-churn histories of 6-23 commands over a handful of addresses, and aliasing histories: two breakpoints exactly 64 / 128 / 192 / 256 words apart, one removed again, then resuming commands) over {step, step into k (k absent, 0, 1, 2, 3, 7, 100, 65535, small), step out, continue, break add/remove at code addresses / labels / PC offsets} on ProgGen programs and (1 in 6) arbitrary word images written as `.fill` lines (loops, nested and recursive subroutines in both conventions, HALT in the middle or at the end, both feature settings), each command followed by `registers`, ended by `exit`. \
          Oracle: RefDbg on RefVM — after every command R0-R7, PC and CC; after the history the full snapshot (all memory), the number of executed instructions (hook H4) and the program output. `step` over a call whose two readings (first arrival at the following address / the call has returned) disagree ends the history there, and either reading's outcome is accepted (counted as ambiguous). \
          Non-trivial: >= 5 instructions executed in >= 2 resuming commands, including a step over a call, a step on a taken branch / JMP / RET, a step into that is cut short by a pause, or a step out. Distinct = hash(source, script, input)."
     }
